@@ -6,7 +6,7 @@ MODEL = "C03"
 MODEL_QUALID = "Model.Circuit.run_script"
 NCFG = 14
 PER_EV = 11
-FORMAT = ("script [time_based; wsize; wdur_ms; min_calls (<0: not set, defaults to wsize); fnum; fden; slow_on; slow_thr_ms; snum; sden; wait_open_ms; permitted; has_fallback; n; (op a b)*] "
+FORMAT = ("script [time_based + 2*unit_us (unit_us=1: every duration and advance of the script is in MICROseconds instead of ms; the model is unit-agnostic); wsize; wdur_ms; min_calls (<0: not set, defaults to wsize); fnum; fden; slow_on; slow_thr_ms; snum; sden; wait_open_ms; permitted; has_fallback; n; (op a b)*] "
           "op 1=Poll a 2=Drop a 3=Advance a(ms) 4=Complete a b 5=ForceOpen 6=ForceClosed 7=Reset 8=Call a (create the call future without polling it); events naming a caller outside 0..n-1 are skipped; "
           "outcome b: 0 ok, 1 ok classified failure, 2 err, 3 err classified success, 4 inner panic, 5 ok on which the failure classifier panics. "
           "trace per event [r; started (number of inner calls started by the event); state; state_sync(+10 if is_open disagrees, +20 if the fallback service's lock-free view differs from the plain clone's); metrics.state; total; failures; successes; slow; in-flight; wake mask]; "
@@ -15,11 +15,15 @@ FORMAT = ("script [time_based; wsize; wdur_ms; min_calls (<0: not set, defaults 
 TRUSTED = ["rates are compared as exact rationals in the model (cnt*den >= num*total); the code compares binary64 quotients — equal for the small counts/denominators generated (distinct small rationals never round to the same double)",
            "tokio Mutex around the Circuit is free at poll granularity (no guard is held across an await); oneshot gate",
            "poll atomicity"]
-ASSUMPTIONS = ["whole-millisecond instants", "a wait_duration_in_open of 10^18 ms in a script stands for Duration::MAX (stay open until closed by hand)", "sliding_window_duration is always set for time-based windows"]
+ASSUMPTIONS = ["whole-millisecond instants, or whole-microsecond instants in scripts with the unit_us bit", "a wait_duration_in_open of 10^18 ms in a script stands for Duration::MAX (stay open until closed by hand)", "sliding_window_duration is always set for time-based windows"]
 
 
-def cfg(tb=0, wsize=4, wdur=100, minc=2, fnum=1, fden=2, slow_on=0, slow_thr=50, snum=1, sden=2, wait=30, perm=2, fb=0, n=4):
-    return [tb, wsize, wdur, minc, fnum, fden, slow_on, slow_thr, snum, sden, wait, perm, fb, n]
+US_WAITS = [500, 999, 1500, 1900, 1001, 2000, 2750]      # microseconds; mostly not whole milliseconds
+
+
+def cfg(tb=0, wsize=4, wdur=100, minc=2, fnum=1, fden=2, slow_on=0, slow_thr=50, snum=1, sden=2, wait=30, perm=2, fb=0, n=4, us=0):
+    """tb may already carry the unit bit; us=1 sets it"""
+    return [tb + 2 * us, wsize, wdur, minc, fnum, fden, slow_on, slow_thr, snum, sden, wait, perm, fb, n]
 
 
 def events(s):
@@ -109,6 +113,14 @@ def corpus():
             s += seq_call(i, 0, 5 if i < k else 0)
         s += seq_call(20, 0, 0)
         out.append(s)
+    # microsecond script: wait 1500 µs; callers at 1000 µs and 1499 µs are rejected, the one at 1500 µs is the trial;
+    # and a wait of 500 µs is not "no wait": the call right after opening is rejected
+    s = cfg(0, 2, 100000, 2, 1, 2, 0, 500, 1, 2, 1500, 1, 0, 8, us=1)
+    s += seq_call(0, 2, 0) + seq_call(1, 2, 0) + [3, 1000, 0, 1, 2, 0, 3, 499, 0, 1, 3, 0, 3, 1, 0, 1, 4, 0]
+    out.append(s)
+    s = cfg(1, 2, 100000, 2, 1, 2, 0, 500, 1, 2, 500, 1, 1, 8, us=1)
+    s += [5, 0, 0, 1, 0, 0, 3, 499, 0, 1, 1, 0, 3, 1, 0, 1, 2, 0]
+    out.append(s)
     # a call made (future created) before the breaker opens and first polled while it is open; with a fallback;
     # force_open goes through a clone taken before with_fallback
     s = cfg(0, 2, 100, 2, 1, 2, 0, 50, 1, 2, 10, 1, 1, 6)
@@ -117,7 +129,14 @@ def corpus():
     return out
 
 
-def random_cfg(rng, n):
+def random_cfg(rng, n, us=False):
+    if us:
+        tb = rng.random() < 0.4
+        fnum, fden = rng.choice([(0, 1), (1, 3), (1, 2), (2, 3), (1, 1), (1, 2)])
+        snum, sden = rng.choice([(0, 1), (1, 3), (1, 2), (1, 1)])
+        return cfg(int(tb), rng.choice([1, 2, 3, 4]), rng.choice([1500, 2999, 20000]), rng.choice([0, 1, 2, 3]), fnum, fden,
+                   int(rng.random() < 0.4), rng.choice([500, 1500, 1999]), snum, sden, rng.choice(US_WAITS),
+                   rng.choice([1, 1, 2, 3]), int(rng.random() < 0.3), n, us=1)
     tb = rng.random() < 0.4
     wsize = rng.choice([1, 2, 3, 4, 5])
     minc = rng.choice([0, 1, 2, 3, 4, 6])
@@ -128,11 +147,43 @@ def random_cfg(rng, n):
                snum, sden, rng.choice([0, 10, 10, 30, 10 ** 18]), rng.choice([1, 1, 2, 3]), int(rng.random() < 0.3), n)
 
 
-def random_seq_history(rng, length=None):
+def us_advances(wait, wdur=None, slow_thr=None):
+    """advances (µs) that land exactly on, 1 µs before and 1 µs after the configured durations, on the millisecond
+    boundaries around them, and their complements"""
+    out = [1, wait - 1, wait, wait + 1, 1000 * (wait // 1000), 1000 * (wait // 1000) - 1, 999, 1000, 1,
+           max(1, wait - 1000 * (wait // 1000)), max(1, wait // 2)]
+    for d in (wdur, slow_thr):
+        if d:
+            out += [d - 1, d, d + 1]
+    return [x for x in out if x > 0]
+
+
+def random_seq_history(rng, length=None, us=False):
     """C04: sequential histories over {success, failure, slow success, slow failure, wait, force_open, force_closed, reset}"""
     L = length or rng.randint(3, 40)
-    s = random_cfg(rng, L)
+    s = random_cfg(rng, L, us)
     slow_thr = s[7]
+    if us:
+        adv = us_advances(s[10], s[2], None)
+        i = 0
+        fail_p = rng.choice([0.5, 0.5, 0.9])
+        for _ in range(L):
+            x = rng.random()
+            if x < 0.60:
+                fail = rng.random() < fail_p
+                outcome = (rng.choice([2, 2, 1]) if fail else rng.choice([0, 0, 3]))
+                lat = rng.choice([0, 0, 1, slow_thr - 1, slow_thr, slow_thr + 1])
+                s += seq_call(i, outcome, max(0, lat))
+                i += 1
+            elif x < 0.90:
+                s += [3, rng.choice(adv), 0]
+            elif x < 0.95:
+                s += [5, 0, 0]
+            elif x < 0.975:
+                s += [6, 0, 0]
+            else:
+                s += [7, 0, 0]
+        return s
     i = 0
     fail_p = rng.choice([0.1, 0.5, 0.5, 0.9])
     for _ in range(L):
@@ -180,6 +231,35 @@ def rate_boundary_scripts(rng, maxden):
                 s += seq_call(i, 2 if i in fails else 0, 0)
             out.append(s)
     return out
+
+
+def us_wait_boundary(rng):
+    """wait_duration_in_open that is NOT a whole number of milliseconds (script unit = µs): open the breaker (by two
+    failures or force_open), then new callers at elapsed = wait-1 µs, wait, wait+1 µs, at the millisecond boundaries
+    below the wait, and right after opening (a wait below 1 ms must not count as 0)"""
+    wait = rng.choice(US_WAITS)
+    perm = rng.choice([1, 2])
+    n = 12
+    s = cfg(int(rng.random() < 0.5), 2, rng.choice([5000, 50000]), 2, 1, 2, 0, 500, 1, 2, wait, perm, int(rng.random() < 0.3), n, us=1)
+    if rng.random() < 0.6:
+        s += seq_call(0, 2, rng.choice([0, 0, 3])) + seq_call(1, 2, 0)
+    else:
+        s += [5, 0, 0]
+    nxt = 2
+    elapsed = 0
+    marks = sorted(set(x for x in [0, 1, 999, 1000, 1001, 1000 * (wait // 1000), wait - 1, wait, wait + 1, wait // 2] if 0 <= x <= wait + 1))
+    marks = [m for m in marks if rng.random() < 0.7 or m in (wait - 1, 1000 * (wait // 1000))]
+    for m in marks:
+        if m > elapsed:
+            s += [3, m - elapsed, 0]
+            elapsed = m
+        if nxt < n - 2:
+            s += [1, nxt, 0]
+            if rng.random() < 0.3:
+                s += [4, nxt, rng.choice([0, 2]), 1, nxt, 0]
+            nxt += 1
+    s += [3, rng.choice([1, wait]), 0, 1, nxt, 0]
+    return s
 
 
 def slow_rate_boundary_scripts(rng, maxden):
@@ -269,14 +349,16 @@ def random_concurrent(rng, maxn=8, maxlen=40):
     return s
 
 
-def half_open_burst(rng):
-    """open the breaker, wait, then a burst of callers while half-open"""
+def half_open_burst(rng, us=False):
+    """open the breaker, wait, then a burst of callers while half-open (us: the script is in µs, the wait is not a
+    whole number of ms and the burst may begin 1 µs too early: then everybody must be rejected)"""
     n = rng.randint(4, 10)
     tb = int(rng.random() < 0.5)
     perm = rng.choice([1, 2, 3, rng.choice([4, 5, 8])])
-    wait = rng.choice([10, 20, rng.choice([0, 10])])
+    wait = rng.choice(US_WAITS) if us else rng.choice([10, 20, rng.choice([0, 10])])
     slow_on = int(rng.random() < 0.3)          # slow (successful) trials must still count as successes
-    s = cfg(tb, 2, rng.choice([15, 50]), 2, 1, 2, slow_on, 5, rng.choice([1, 1, 0]), 2, wait, perm, int(rng.random() < 0.3), n + 4)
+    s = cfg(tb, 2, rng.choice([15000, 50000] if us else [15, 50]), 2, 1, 2, slow_on, 5, rng.choice([1, 1, 0]), 2, wait, perm,
+            int(rng.random() < 0.3), n + 4, us=int(us))
     stale = []
     if rng.random() < 0.3:
         # calls admitted while Closed are still in flight when the breaker opens and goes half-open; they complete
@@ -284,9 +366,17 @@ def half_open_burst(rng):
         for j in range(rng.choice([1, 2])):
             s += [1, n + 2 + j, 0]
             stale.append(n + 2 + j)
-    s += seq_call(n, 2, 0) + seq_call(n + 1, 2, 0) + [3, wait, 0]
+    s += seq_call(n, 2, 0) + seq_call(n + 1, 2, 0)
+    early = us and rng.random() < 0.4
+    s += [3, wait - 1 if early else wait, 0]
     order = list(range(n))
     rng.shuffle(order)
+    if early:
+        k = rng.randint(1, 2)
+        for i in order[:k]:
+            s += [1, i, 0]                      # 1 µs before the wait has elapsed: rejected
+        order = order[k:]
+        s += [3, 1, 0]
     pending = []
     for i in order:
         if stale and rng.random() < 0.3:
@@ -361,7 +451,7 @@ def shrink(s):
 
 
 def classify(s, t):
-    out = ["time_based" if s[0] else "count_based", "fallback" if s[12] else "nofallback", "slow_on" if s[6] else "slow_off"]
+    out = ["time_based" if s[0] & 1 else "count_based", "fallback" if s[12] else "nofallback", "slow_on" if s[6] else "slow_off"]
     d = decode(s, t)
     if d:
         states = set(o[2] for (_, o) in d)
@@ -384,6 +474,8 @@ def classify(s, t):
         out.append("permitted>3")
     if s[10] == 0:
         out.append("wait=0")
+    if (s[0] >> 1) & 1:
+        out.append("unit_us")
     return out
 
 
